@@ -179,8 +179,28 @@ func (op *pipelineOp) exec(fm *Frame) Exception {
 }
 
 func isReaderGone(exc Exception) bool {
-	_, ok := exc.Reason().(errs.ReaderGone)
-	return ok
+	return isAllReaderGone(exc.Reason())
+}
+
+// Reports whether err is a ReaderGone error, or a combination of several
+// errors (like what peach returns when more than one callback fails) that are
+// all ReaderGone errors.
+func isAllReaderGone(err error) bool {
+	switch err := err.(type) {
+	case errs.ReaderGone:
+		return true
+	case Exception:
+		return isAllReaderGone(err.Reason())
+	case interface{ Unwrap() []error }:
+		errors := err.Unwrap()
+		for _, e := range errors {
+			if !isAllReaderGone(e) {
+				return false
+			}
+		}
+		return len(errors) > 0
+	}
+	return false
 }
 
 type formOp struct {
